@@ -221,10 +221,24 @@ pub fn gen_tri_xy(rng: &mut Rng) -> ([(f32, f32); 3], &'static str) {
             let (ex, ey) = match rng.below(8) {
                 0 | 1 => (300.0, 6.0),
                 2 => (6.0, 300.0),
+                3 => (6.0, 3000.0),
                 _ => (96.0, 6.0),
             };
             for q in p.iter_mut() {
                 *q = (rng.f32_in(0.0, ex), rng.f32_in(0.0, ey));
+            }
+            if ey > 1000.0 {
+                // VERY tall: thousands of rows with an almost vertical long edge (slope 1e-5..1e-3 px per row):
+                // whatever is rounded or dropped per row adds up over the height
+                let slope = 10f32.powf(rng.f32_in(-5.0, -3.0)) * if rng.bool() { 1.0 } else { -1.0 };
+                let h = rng.f32_in(1500.0, 3000.0);
+                // the long edge CROSSES a column of pixel centres somewhere along its height (so the rows above
+                // and below that crossing are covered differently), instead of just running beside it
+                let x0 = (1 + rng.below(4)) as f32 + 0.5 - slope * h * rng.f32_in(0.15, 0.85);
+                p[0] = (x0, rng.f32_in(0.0, 3.0));
+                p[1] = (x0 + slope * h, p[0].1 + h);
+                p[2] = (x0 + rng.f32_in(1.0, 4.0) * if rng.bool() { 1.0 } else { -1.0 }, rng.f32_in(0.0, h));
+                for q in p.iter_mut() { q.0 = q.0.max(0.0); }
             }
         }
         13 => {
